@@ -299,6 +299,15 @@ impl<'a> ReplyData<'a> {
             }
         });
 
+        // The payload of a handler has a single wire format, so either all of its methods
+        // take it raw or none does.
+        if self.payload.is_payload_marked() != new_reply_data.payload.is_payload_marked() {
+            emit_error!(current_method_name.span(), "Mismatched `sv::payload(raw)` usage in reply handlers.";
+                note = self.handler_id.span() => format!("Either all or none of the `{}` handler methods have to mark their payload with `#[sv::payload(raw)]`.", self.handler_id);
+                note = new_handler.function_name().span() => format!("Previous definition of {} handler.", self.handler_id)
+            );
+        }
+
         // Only the `success` method can declare the `data` parameter and it might be
         // defined after the `error` one.
         if self.data.is_none() {
